@@ -74,7 +74,10 @@ fn msg_kind(m: &ExecuteMsg) -> String {
 }
 
 pub fn check_c10_case(c: &C10Case, agg: &mut Agg) -> Result<(), String> {
-    let mut e = Engine::new(&c.case.setup)?;
+    let mut e = match Engine::try_new(&c.case.setup)? {
+        Some(e) => e,
+        None => return Ok(()),
+    };
     let own = |e: &Engine| e.viol.as_ref().filter(|v| v.tags.contains(&"C10")).map(|v| format!("step {}: {}", v.step, v.msg));
     for op in &c.case.ops {
         if e.viol.is_some() {
